@@ -310,11 +310,46 @@ const DEFAULT_UPDATE_SEED : u64 = 9001 ;
 struct ThetaSketchBuilder {
 lg_k : u8 , resize_factor : ResizeFactor , sampling_probability : f32 , seed : u64 , }
 
+const MIN_LG_K : u8 = 5 ;
+
+const MAX_LG_K : u8 = 26 ;
+
+// R12b: a DOCUMENTED panic ("# Panics: if lg_k is not in range [5, 26]" / "if p is not in range (0.0, 1.0]") is modelled as 'returns only
+// if the condition holds': the condition is a tagged POSTCONDITION (`*_validated`) instead of a precondition, so weakening or removing
+// the check is noticed.  Body = the original statement.
+#[verifier::external_body] fn vx_documented_panic(c: bool) ensures c { assert!(c); }
+// the documented range of sampling_probability, (0.0, 1.0] (f32 comparisons stay uninterpreted: R15 float leaf)
+pub uninterp spec fn p_ok(p: f32) -> bool;
+#[verifier::external_body]
+fn vx_p_in_range(probability: f32) -> (r: bool) ensures r == p_ok(probability) { (0.0..=1.0).contains(&probability) && probability > 0.0 }
+// R21: the setters take `mut self`; `self.f = v; self` is the functional update (verified here, not assumed)
+fn vx_with_lg_k(b: ThetaSketchBuilder, lg_k: u8) -> (r: ThetaSketchBuilder)
+  ensures r.lg_k == lg_k, r.resize_factor == b.resize_factor, r.sampling_probability == b.sampling_probability, r.seed == b.seed
+{ let mut b = b; b.lg_k = lg_k; b }
+fn vx_with_sampling_probability(b: ThetaSketchBuilder, probability: f32) -> (r: ThetaSketchBuilder)
+  ensures r.lg_k == b.lg_k, r.resize_factor == b.resize_factor, r.sampling_probability == probability, r.seed == b.seed
+{ let mut b = b; b.sampling_probability = probability; b }
+
 impl ThetaSketchBuilder {
     // the documented defaults (closed: the ensures of a trait method must be visible to every caller)
     pub closed spec fn is_default(&self) -> bool {
         self.lg_k == 12 && self.resize_factor is X8 && self.sampling_probability == 1.0f32 && self.seed == 9001
     }
+
+    fn lg_k ( self , lg_k : u8 ) -> ( r : Self ) ensures
+/*@C04.builder.lg_k_validated*/ 5 <= lg_k <= 26 ,
+/*@C04.builder.lg_k_set*/ r . lg_k == lg_k && r . resize_factor == self . resize_factor && r . sampling_probability == self . sampling_probability && r . seed == self . seed , {
+vx_documented_panic ( ( MIN_LG_K ..= MAX_LG_K ) . contains ( & lg_k ) ) ;
+assert ( /*@C04.builder.lg_k_validated*/ 5 <= lg_k <= 26 ) ;
+vx_with_lg_k ( self , lg_k ) }
+
+
+    fn sampling_probability ( self , probability : f32 ) -> ( r : Self ) ensures
+/*@C04.builder.sampling_probability_validated*/ p_ok ( probability ) ,
+/*@C04.builder.sampling_probability_set*/ r . lg_k == self . lg_k && r . resize_factor == self . resize_factor && r . sampling_probability == probability && r . seed == self . seed , {
+vx_documented_panic ( vx_p_in_range ( probability ) ) ;
+vx_with_sampling_probability ( self , probability ) }
+
 }
 impl Default for ThetaSketchBuilder {
     fn default ( ) -> ( r : Self ) ensures
